@@ -280,7 +280,12 @@ pub fn parse_string(span: &str) -> Result<Cell, Error> {
                     })?
                 }
                 Some(c) => *c,
-                None => return Err(Error::Incomplete),
+                None => {
+                    return Err(Error::SyntaxError(format!(
+                        "\\ must be followed by a character in \"{}\"",
+                        span
+                    )));
+                }
             });
             cur.next();
         } else {
